@@ -320,6 +320,7 @@ func (fr *Frame) builtin(b *ssa.BasicBlock, name string, c *ssa.CallCommon, st *
 	case "copy":
 		return fr.copyBuiltin(b, c, args, st, reach, pos, resT)
 	case "delete":
+		fr.guardContents(c.Args[0], st, reach, pos)
 		m := c.Args[0].Type().Underlying().(*types.Map)
 		alt := st.clone()
 		fr.frameCheckRef(b, args[0].S, sNot(sEq(args[0].S, bvConst(0, 64))), st, reach, pos, "mapdelete")
